@@ -21,7 +21,20 @@ Verdicts (parent property C01: "... Otherwise the statement fails with an error.
                                                  -> contract violation (wrong answer) unless the scope shape is a
                                                     listed open finding C01/nameres-* (KNOWN-FINDING).
 
+Observation per clause: select list -> the returned value; WHERE / ON / HAVING (also inside sub-queries at 4 positions) -> one
+statement per probe constant `ref = K` (the K that matches names the bound column; sub-queries in WHERE are run twice, once
+projecting a literal and once a real column of the outer block); ORDER BY / GROUP BY -> a 3-row table whose columns have distinct
+permutations / partitions, the answer is checked for consistency with each candidate key; `*` / `q.*` -> the row of constants.
+
+Open findings on the unchanged engine (ids C01/nameres-*, "also": ["X01"]; signatures = scope shape AND observed misbehaviour, see
+known_class): ambiguous-name-first-match, qualifier-ignored-on-miss, duplicate-exposed-name-accepted, qualified-star-unknown-qualifier,
+duplicate-output-names-conflated, unknown-name-in-subquery-is-null, case-sensitive-identifiers, subquery-over-cte-binds-outer-column,
+in-subquery-correlated-qualifier-ignored, unqualified-outer-reference-column-pruned, on-clause-sees-later-from-item,
+derived-table-body-columns-leak, derived-table-reference-binds-other-item.  Any other wrong binding is a VIOLATION.
+
     run_sub(ctx) / replay_sub(ctx, obj) / selftest_sub(ctx)      (replay objects carry case["kind"] == "nameres")
+    run_mutants(ctx)  seeded spec mutants (first match wins, outer scope wins, case-sensitive, alias does not hide, ORDER BY prefers
+                      the input column) must each violate a law
 """
 import concurrent.futures as cf
 import json
